@@ -234,6 +234,252 @@ def gen_case(r):
     return dict(ser=r.choice(["json", "pickle"]), mw=dict(nror=r.random() < .6, count=100, label=True), tasks=tasks, ops=ops)
 
 
+# ------------------------------------------------------------------ labels the retry middleware itself reads
+# max_retries / retry_on_error are *user* labels (set on the task or on a kicker) that SimpleRetryMiddleware reads on every
+# failing attempt; like every other label they must arrive with the value and the type they were set with, on every delivery.
+# They also decide whether a failing attempt is re-sent, so a scenario that sets them needs a plan that agrees with the
+# documented decision (C11's statement: re-send while retry is enabled and executions so far < max_retries); the plan is
+# normalised from the labels *set* (never from observations): it ends at the first failing attempt that is not re-sent.
+RC_KEYS = ("max_retries", "retry_on_error")
+RQ = "X-Taskiq-requeue"
+
+
+def pyval(v):
+    """typed case value -> the Python value that was set (what the worker must see)"""
+    t = v["t"]
+    if t == "int":
+        return int(v["v"])
+    if t == "float":
+        return ffrom(v["v"])
+    if t == "bool":
+        return bool(v["v"])
+    if t == "str":
+        return kstr(v["v"])
+    if t == "bytes":
+        return bytes(v["v"])
+    return {"none": "None", "list": "[1, 'a']", "intenum": "1", "tuple": "(1, 2)", "obj": "weird!", "bytearray": "bytearray(b'ab')"}[v["k"]]
+
+
+def tv(x):
+    """Python value of one of the five types -> typed case value"""
+    if type(x) is bool:
+        return {"t": "bool", "v": x}
+    if type(x) is int:
+        return {"t": "int", "v": str(x)}
+    if type(x) is float:
+        return {"t": "float", "v": fbits(x)}
+    if type(x) is str:
+        return {"t": "str", "v": K(x)}
+    return {"t": "bytes", "v": list(x)}
+
+
+def retry_enabled(lab, mw):
+    if not mw.get("enabled", True):
+        return False
+    if "retry_on_error" not in lab:
+        return bool(mw.get("label", True))
+    x = pyval(lab["retry_on_error"])
+    return x.lower() == "true" if isinstance(x, str) else bool(x)
+
+
+def int_of(v):
+    """int(value) of the language itself; None = it raises"""
+    try:
+        return int(pyval(v))
+    except (ValueError, OverflowError, TypeError):
+        return None
+
+
+def effective_plan(labels, plan, mw):
+    """(plan', crash): plan' = the plan cut after the first failing attempt that is not re-sent (retry disabled for this message,
+    or executions so far >= max_retries); crash = a failing attempt makes int() raise on a counter inside on_error (the chain ends
+    there without post_execute; plan left as it is)"""
+    if plan[-1] in ("fail", "requeue"):
+        plan = list(plan) + ["ok"]          # what the driver's task body does once its plan is used up
+    retries = None
+    out = []
+    rq_ok = RQ not in labels or py_int_ok(labels[RQ])
+    for act in plan[:-1]:
+        out.append(act)
+        if act == "requeue" and rq_ok:
+            continue
+        if not retry_enabled(labels, mw):
+            return out, False
+        if retries is None:
+            if "_retries" in labels and not py_int_ok(labels["_retries"]):
+                return list(plan), True
+            retries = int(pyval(labels["_retries"])) if "_retries" in labels else 0
+        retries += 1
+        mr = int_of(labels["max_retries"]) if "max_retries" in labels else int(mw.get("count", 100))
+        if mr is None:
+            return list(plan), True
+        if not retries < mr:
+            return out, False
+    return out + [plan[-1]], False
+
+
+def normalise(case):
+    """make every send's plan agree with the retry decision its labels ask for; returns the number of plans cut"""
+    cut = 0
+    for e in expected_sends(case):
+        if "plan" not in e["op"]:
+            continue
+        p, _ = effective_plan(e["labels"], e["op"]["plan"], case.get("mw", {}))
+        if p != e["op"]["plan"]:
+            e["op"]["plan"] = p
+            cut += 1
+    return cut
+
+
+def gen_max_retries(r):
+    n = r.choice([0, 1, 2, 3, 3, 4, 4, 5, 6, 9, 40])
+    k = r.random()
+    if k < .15:
+        return tv(n)
+    if k < .42:
+        return tv(r.choice(["%d", "%d", "+%d", "0%d", "00%d"]) % n)
+    if k < .68:
+        return tv(float(n) + r.choice([0, 0, 0, .5, .999]))
+    if k < .78:
+        return tv(r.random() < .6)                       # int(True) = 1: one execution only
+    if k < .9:
+        return tv(str(n).encode())                       # int(b"4") = 4
+    return tv(r.choice([-1, -2**40, 2**70, 10**30]))
+
+
+def gen_retry_on_error(r):
+    nan = ffrom(CANON_NAN)
+    return tv(r.choice([True, True, True, False,
+                        "True", "true", "TRUE", "tRuE", "false", "False", "yes", "1", "",
+                        1, 2, -1, 0, 1.0, .5, nan, 0.0, -0.0, b"x", b"\x00", b"false", b""]))
+
+
+def set_label(r, pairs, key, v):
+    for p in pairs:
+        if kstr(p[0]) == key:
+            p[1] = v
+            return
+    pairs.insert(r.randrange(len(pairs) + 1), [K(key), v])
+
+
+def gen_rc_plan(r):
+    n = r.choice([1, 1, 2, 2, 3])
+    acts = [r.choice(["fail", "fail", "fail", "requeue"]) for _ in range(n)]
+    acts[r.randrange(n)] = "fail"
+    return acts + [r.choice(["ok", "ok", "ok", "noresult"])]
+
+
+def rc_sends(case):
+    """sends whose labels carry a retry-control label and that are re-sent by the retry middleware at least once"""
+    return [e for e in expected_sends(case) if any(k in e["labels"] for k in RC_KEYS) and "fail" in e["plan"][:-1]]
+
+
+def gen_case_rc(r):
+    """a scenario where max_retries / retry_on_error are set by the user (task declaration, kicker, or a kicker overriding the
+    declaration with another type) with values of all five types, the middleware defaults vary, and at least one such send fails and
+    is re-sent; the other sends of the scenario keep their random plans"""
+    for attempt in range(40):
+        case = gen_case(r)
+        case["mw"] = dict(nror=r.random() < .6, count=r.choice([100, 100, 100, 100, 1, 2, 3, 4, 6]), label=r.random() < .8)
+        sends = [(i, o) for i, o in enumerate(case["ops"]) if o["op"] in ("kiq", "task_kiq")]
+        i, op = r.choice(sends)
+        forced = attempt >= 30
+        which = r.choice([("max_retries",), ("max_retries",), ("retry_on_error",), RC_KEYS, RC_KEYS])
+        vals = {k: (gen_max_retries(r) if k == "max_retries" else gen_retry_on_error(r)) for k in which}
+        if forced:
+            vals = {"max_retries": tv(r.choice(["7", 7.5, b"7"])), "retry_on_error": tv(r.choice(["True", 1, 1.0, b"y"]))}
+        where = "declared" if op["op"] == "task_kiq" else r.choice(["declared", "kicker", "kicker", "both"])
+        t = op["t"] if op["op"] == "task_kiq" else [o for o in case["ops"] if o["op"] == "kicker"][op["k"]]["t"]
+        if where in ("declared", "both"):
+            for k, v in vals.items():
+                set_label(r, case["tasks"][t]["labels"], k, v)
+        if where in ("kicker", "both"):
+            if where == "both":     # the kicker overrides the declaration, with a value of another type where it can
+                vals = {k: (gen_max_retries(r) if k == "max_retries" else gen_retry_on_error(r)) for k in vals}
+            mine = [o for o in case["ops"][:i] if o["op"] == "with_labels" and o["k"] == op["k"]]
+            if mine and r.random() < .5:
+                wl = mine[-1]
+            else:
+                wl = dict(op="with_labels", k=op["k"], labels=[])
+                case["ops"].insert(i, wl)
+            for k, v in vals.items():
+                set_label(r, wl["labels"], k, v)
+        op["plan"] = gen_rc_plan(r)
+        normalise(case)
+        if rc_sends(case):
+            return case
+    return dict(ser=r.choice(["json", "pickle"]), mw=dict(nror=True, count=100, label=True),
+                tasks=[dict(labels=[[K("max_retries"), tv("7")]], shared=False)],
+                ops=[dict(op="kicker", t=0), dict(op="kiq", k=0, plan=["fail", "ok"])])
+
+
+def retype(r, v):
+    """the same value written in another of the five types, where the language converts it (else a fresh value)"""
+    if v["t"] == "other":
+        return gen_value(r, allow_other=False)
+    x = pyval(v)
+    cands = []
+    if isinstance(x, (bool, int, float)):
+        cands += [str(x), str(x).encode()]
+        if x == x and abs(x) < 2**60:
+            cands += [int(x), float(x), bool(x)]
+    elif isinstance(x, bytes):
+        cands += [x.decode("latin-1")]
+    else:
+        for f in (int, float):
+            try:
+                cands.append(f(x))
+            except (ValueError, OverflowError):
+                pass
+        try:
+            cands.append(x.encode())
+        except UnicodeEncodeError:
+            pass
+    cands = [c for c in cands if type(c) is not type(x) and not (type(c) is int and len(str(c)) > 4000)]
+    return tv(r.choice(cands)) if cands else gen_value(r, allow_other=False)
+
+
+def variant(r, case):
+    """a neighbour of a scenario on which model and implementation differed: same shape, 1-3 small changes (a label re-typed,
+    renamed to / from a name the retry middleware reads, copied between declaration and kicker, a longer plan, other
+    serializer / middleware defaults).  'timeout' is left alone (a small value would time the task out)."""
+    c = json.loads(json.dumps(case))
+    dicts = [t["labels"] for t in c["tasks"]] + [o["labels"] for o in c["ops"] if o["op"] == "with_labels"]
+    sends = [o for o in c["ops"] if o["op"] in ("kiq", "task_kiq")]
+    for _ in range(r.choice([1, 2, 2, 3])):
+        k = r.random()
+        d = r.choice(dicts)
+        free = [p for p in d if kstr(p[0]) != "timeout"]
+        if k < .3 and free:
+            p = r.choice(free)
+            p[1] = retype(r, p[1])
+        elif k < .5 and free:
+            p = r.choice(free)
+            name = r.choice(["max_retries", "retry_on_error", "_retries", RQ] + USER_KEYS[:4])
+            if name not in {kstr(q[0]) for q in d}:
+                p[0] = K(name)
+        elif k < .62 and free:
+            p = r.choice(free)
+            d2 = r.choice(dicts)
+            if kstr(p[0]) not in {kstr(q[0]) for q in d2}:
+                d2.append([p[0], retype(r, p[1]) if r.random() < .5 else p[1]])
+        elif k < .9 and sends:
+            r.choice(sends)["plan"] = gen_rc_plan(r)
+        elif k < .95:
+            c["ser"] = "pickle" if c.get("ser") == "json" else "json"
+        else:
+            c["mw"] = dict(nror=r.random() < .5, count=r.choice([100, 2, 3, 5]), label=r.random() < .8)
+    # a max_retries value on which int() raises makes on_error raise on the unchanged code too: nothing to see, keep it convertible
+    for d in dicts:
+        for p in d:
+            if kstr(p[0]) == "max_retries" and int_of(p[1]) is None:
+                p[1] = gen_max_retries(r)
+            if kstr(p[0]) in COUNTERS and p[1]["t"] not in ("int", "str", "bool"):
+                p[1] = gen_counter_value(r)          # int(float) / int(bytes) of a counter: outside the model (notes, scope)
+    normalise(c)
+    return c
+
+
 def model_index(case):
     """explicit kicker j (index into the list of kicker() results) -> index of that kicker in the model, where
     task.kiq() is kicker() + kiq() and therefore creates a kicker of its own"""
@@ -282,7 +528,7 @@ def expected_sends(case):
         lab = as_map(case["tasks"][k["t"]]["labels"])
         for l in k["own"]:
             lab.update(as_map(l))
-        res.append(dict(t=k["t"], labels=lab, tid=k["tid"], b=k["b"], plan=op.get("plan", ["ok"])))
+        res.append(dict(t=k["t"], labels=lab, tid=k["tid"], b=k["b"], plan=op.get("plan", ["ok"]), op=op))
     return res
 
 
@@ -340,12 +586,19 @@ def oracle(case, obs, fail):
         others = {k for k, v in e["labels"].items() if is_other(v)}
         want = canon_map(prim, drop=COUNTERS)
         want_full = canon_map(prim)
-        crashy = any(k in e["labels"] and not py_int_ok(e["labels"][k]) for k in COUNTERS)
+        # int() raising on a counter label the user set to a non-number: the chain ends there (on_error raises) / requeue()
+        # raises ValueError instead of NoResultError - nothing is demanded about the number of deliveries then
+        crashy = any(k in e["labels"] and not py_int_ok(e["labels"][k]) for k in COUNTERS) \
+            or effective_plan(e["labels"], e["plan"], case.get("mw", {}))[1]
         chain = s["chain"]
         if not chain:
             fail("sent message was never delivered", None, None, "delivery")
             continue
-        if not crashy and len(chain) != len(e["plan"]):
+        # the plan ends at the first failing attempt the labels / middleware defaults say is not re-sent (normalise): a
+        # *missing* re-delivery is this property's business ("on every retry or requeue"), how many times the middleware
+        # retries beyond that is C11's
+        short = len(chain) < len(e["plan"]) or (len(chain) != len(e["plan"]) and e["plan"][-1] not in ("fail", "requeue"))
+        if not crashy and short:
             fail("a retry / requeue did not lead to exactly one re-delivery", dict(deliveries=len(chain), plan=e["plan"]),
                  len(e["plan"]), "requeue" if "requeue" in e["plan"] else "delivery")
         for j, at in enumerate(chain):
@@ -355,7 +608,7 @@ def oracle(case, obs, fail):
                 if pairs is None:
                     if name in ("middleware(pre_execute)", "Context"):
                         fail("delivery %d: message not seen in %s (undecodable or not executed)" % (j, name),
-                             dict(callback_raised=at["callback_raised"]), None, "requeue" if j and e["plan"][j - 1] == "requeue" else "delivery")
+                             dict(callback_raised=at["callback_raised"]), None, "requeue" if 0 < j <= len(e["plan"]) and e["plan"][j - 1] == "requeue" else "delivery")
                     continue
                 got = as_map(pairs)
                 gotc = canon_map({k: v for k, v in got.items() if k not in others}, drop=() if j == 0 and name != "middleware(post_execute)" else COUNTERS)
@@ -366,7 +619,7 @@ def oracle(case, obs, fail):
                         "first delivery" if j == 0 else "re-delivery", name),
                         dict(delivery=j, where=name, keys=diff, got={k: got.get(k) for k in diff}),
                         {k: e["labels"].get(k) for k in diff},
-                        "requeue" if j and e["plan"][j - 1] == "requeue" else "delivery")
+                        "requeue" if 0 < j <= len(e["plan"]) and e["plan"][j - 1] == "requeue" else "delivery")
                     break
             if at["task_id"] != s["task_id"] or (at["pre"] is not None and at.get("pre_tid") != s["task_id"]):
                 fail("re-delivery under another task id", at["task_id"], s["task_id"], "delivery")
@@ -704,6 +957,21 @@ def explore(ctx, rep, cases, label, shard=60):
                     rep.count("kicker-label:" + v["t"])
             for a in op.get("plan", [])[:-1]:
                 rep.count("resend:" + a)
+        exp = expected_sends(c)
+        if len(exp) == len(o["sent"]):
+            for e, s in zip(exp, o["sent"]):
+                retried = sum(1 for a in e["plan"][:-1] if a == "fail")
+                for k in RC_KEYS:
+                    if k in e["labels"]:
+                        rep.count("retry-control:%s set as %s:%s" % (k, e["labels"][k]["t"], "re-sent by the retry middleware" if retried
+                                                                     and len(s.get("chain", ())) > 1 else "no retry"))
+                if any(k in e["labels"] for k in RC_KEYS):
+                    rep.count("retry-control:deliveries of a send with max_retries / retry_on_error set:%d" % len(s.get("chain", ())))
+                    if e["plan"][-1] in ("fail", "requeue"):
+                        rep.count("retry-control:chain ended by the labels (budget exhausted / retry disabled)")
+        mwc = c.get("mw", {})
+        if mwc.get("count", 100) != 100 or not mwc.get("label", True):
+            rep.count("middleware-defaults:count=%s,label=%s" % (mwc.get("count", 100), mwc.get("label", True)))
         for s in o["sent"]:
             for j, at in enumerate(s["chain"]):
                 rep.count("delivery:%s" % ("first" if j == 0 else "re-delivery"))
@@ -740,6 +1008,9 @@ def run(ctx):
     r = ctx.sub_rng("gen")
     BIG[:] = [False, .05] if ctx.quick else [True, .004]     # each scenario re-encodes a long int ~10 times inside Coq
     cases = [gen_case(r) for _ in range(ctx.n(420, 6000))]
+    rc = ctx.sub_rng("gen-rc")       # own stream: the scenarios above stay what they were
+    cases += [gen_case_rc(rc) for _ in range(ctx.n(50, 850))]
+    rep.extra["plans_cut_by_normalise"] = sum(normalise(c) for c in cases)
     broken = explore(ctx, rep, cases, "main")
     BIG[:] = [not ctx.quick, .05]
     broken = explore_codec(ctx, rep, ctx.sub_rng("codec"), ctx.n(80, 800), "codec") or broken
@@ -747,7 +1018,16 @@ def run(ctx):
     lower_table_obligation(rep)
     if (broken or any(not o["ok"] for o in rep.obligations)) and not rep.failures:
         r2 = ctx.sub_rng("search")
-        explore(ctx, rep, [gen_case(r2) for _ in range(ctx.n(2500, 8000))], "search")
+        # first the neighbourhood of the scenarios on which model and implementation differ (the failing input is usually one
+        # or two changes away: another type for the same label, the label set on the kicker instead of the task, one more
+        # retry), then fresh scenarios, one in four with user-set retry-control labels
+        near = [m["case"] for m in rep.mismatches if isinstance(m.get("case"), dict) and "ops" in m["case"]][:15]
+        extra = [variant(r2, c) for c in near for _ in range(ctx.n(20, 60))]
+        extra += [gen_case_rc(r2) if i % 4 == 3 else gen_case(r2) for i in range(ctx.n(700, 6000))]
+        for c in extra:
+            normalise(c)
+        rep.count("search:neighbours of differing scenarios", len(near) * ctx.n(20, 60))
+        explore(ctx, rep, extra, "search")
     return rep.finish(SIGNATURES)
 
 
